@@ -8,50 +8,6 @@ import PonyVerif.Lemmas.ConnLock
 namespace PonyVerif.Model.ConnLock.Interleave
 open PonyVerif.Model.ConnLock
 
-/-- a thread: where it is in the lock protocol, and the lock events it will still perform (DB-API calls in between are
-    always enabled and do not touch the locks, so they are left out) -/
-structure Thread where
-  phase : Phase
-  rest : List LEv
-  deriving Repr
-
-/-- the two `threading.Lock`s and the threads -/
-structure World where
-  pre : Bool
-  tx : Bool
-  threads : List Thread
-  deriving Repr
-
-def Thread.WB (t : Thread) : Prop := Phase.run t.phase t.rest = some .idle
-def Thread.holdsPre (t : Thread) : Bool := t.phase == .hasPre || t.phase == .hasBoth
-def Thread.holdsTx (t : Thread) : Bool := t.phase == .hasBoth || t.phase == .hasTx
-
-/-- thread `i` performs its next lock event.  `none`: the thread has finished, or blocks in `acquire()` (lock taken), or
-    the step is an error (release of an unlocked lock / an event outside the protocol). -/
-def step (w : World) (i : Nat) : Option World :=
-  match w.threads[i]? with
-  | none => none
-  | some t =>
-    match t.rest with
-    | [] => none
-    | e :: r =>
-      match t.phase.step e with
-      | none => none
-      | some ph =>
-        let ts := w.threads.set i ⟨ph, r⟩
-        match e with
-        | .preAcq => if w.pre then none else some { w with pre := true, threads := ts }
-        | .acq => if w.tx then none else some { w with tx := true, threads := ts }
-        | .preRel => if w.pre then some { w with pre := false, threads := ts } else none
-        | .rel => if w.tx then some { w with tx := false, threads := ts } else none
-
-/-- run a schedule (list of thread indices); steps that are not enabled are skipped (the thread keeps waiting) -/
-def runSchedule (w : World) : List Nat → World
-  | [] => w
-  | i :: is => match step w i with
-    | some w' => runSchedule w' is
-    | none => runSchedule w is
-
 structure WInv (w : World) : Prop where
   wb : ∀ (j : Nat) (t : Thread), w.threads[j]? = some t → t.WB
   pre : w.threads.countP Thread.holdsPre = if w.pre then 1 else 0
@@ -108,10 +64,6 @@ theorem runSchedule_inv (sched : List Nat) : ∀ {w : World}, WInv w → WInv (r
     split
     · rename_i w' hs; exact ih (step_inv h hs)
     · exact ih h
-
-/-- all threads idle with protocol-conforming futures, both locks free -/
-def initial (sessions : List (List LEv)) : World :=
-  { pre := false, tx := false, threads := sessions.map (fun evs => ⟨.idle, evs⟩) }
 
 theorem initial_inv (sessions : List (List LEv)) (h : ∀ evs ∈ sessions, Phase.run .idle evs = some .idle) :
     WInv (initial sessions) := by
